@@ -21,6 +21,11 @@ RULE = ("operations on real files in a per-run scratch directory through session
         "mtproto.NewMTProto: round trips on six path shapes, store/load histories with forced (equal) modification "
         "times and up to three loaders (a loader whose last successful Load saw another modification time must "
         "behave like a fresh one), a loaded long-lived loader under another writer cut short at every byte, "
+        "clients started one after another on ONE long-lived loader (item C: NewMTProto on it; item H: every "
+        "session a Load returned and every started client looked at again - nothing handed out may have changed), "
+        "round trips of ~340 host names made of JSON-significant text (the literal text of every escape sequence "
+        "the JSON writer emits, alone / embedded / behind further backslashes, escaped forms of other host names, "
+        "quotes, long names), "
         "histories on the real clock, every strict prefix of written files, files of "
         "other shapes, restart on a present / missing / torn store; distinct = distinct operation lines; each is "
         "compared with the Lean model and judged by the property's own reading")
